@@ -392,7 +392,7 @@ pub fn write_bg_singlethreaded(
     for i__1 in 0..chroms.len() 
         invariant
             
-            bigwig.file() == f0, bigwig.table() == old(bigwig).table(), s_ == start, e_ == end,
+            bigwig.file() == f0, bigwig.table() == old(bigwig).table(),
             wanted(old(bigwig).table(), chrom0) == Some(chroms@),
             
             writer.lines() == l0 + all_text::<Value>(f0, chroms@, i__1 as int, s_, e_),
@@ -447,9 +447,11 @@ pub fn write_bg_singlethreaded(
 
 /// `bigbedtobed --zoom N` (summary rows of a zoom level instead of records): NOT part of C16.  The whole
 /// `if let Some(zoom) = zoom { .. }` branch of write_bed_singlethreaded is replaced by a call of this stub
-/// (nothing promised except that the reader still serves the same file).
+/// (nothing promised except that the reader still serves the same file; `start`/`end` are handed on as whatever the
+/// locals of those names are at that point -- `Option<u32>` on /repo, plain `u32` after an edit that resolves the
+/// defaults earlier).
 #[verifier::external_body]
-pub fn zoom_mode(bigbed: &mut Reader<BedEntry>, writer: &mut Out, chroms: Vec<ChromInfo>, start: Option<u32>, end: Option<u32>, zoom: u32) -> (r: Result<(), AnyErr>)
+pub fn zoom_mode<S, E>(bigbed: &mut Reader<BedEntry>, writer: &mut Out, chroms: Vec<ChromInfo>, start: S, end: E, zoom: u32) -> (r: Result<(), AnyErr>)
     ensures final(bigbed).file() == old(bigbed).file() && final(bigbed).table() == old(bigbed).table(),
 { unimplemented!() }
 #[verifier::loop_isolation(false)]
@@ -510,7 +512,7 @@ pub fn write_bed_singlethreaded(
         for i__1 in 0..chroms.len() 
         invariant
             
-            bigbed.file() == f0, bigbed.table() == old(bigbed).table(), s_ == start, e_ == end,
+            bigbed.file() == f0, bigbed.table() == old(bigbed).table(),
             wanted(old(bigbed).table(), chrom0) == Some(chroms@),
             
             buf.text() == Seq::<Piece>::empty(),
